@@ -557,3 +557,24 @@ def replay(case):
     else:
         check_rejections(acc)
     return acc.violations
+
+
+def warm():
+    """Touch every jitted function with every dtype the units use (single cache writer)."""
+    acc = Acc()
+    th = [(0, 2), (1, 3), (4, 5)]
+    co = [(0, 3), (4, 6)]
+    for enc in ("endtime", "dt"):
+        check_containment(acc, th, co, enc)
+        check_prev_next(acc, [(0, 1), (3, 4)], [(1, 2)], enc)
+        check_diff_break(acc, th, enc)
+        check_split_touching(acc, th, co, 0, enc)
+        for enc2 in ("endtime", "dt"):
+            check_touching(acc, th, co, 1, enc, enc2, True)
+    check_overlap(acc, 0, 3, 1, 5)
+    check_sort(acc, [(2, 0, 0), (1, 3, 1)], True)
+    check_sort(acc, [(2, 0, 0), (1, 3, 1)], False)
+    big = np.iinfo(np.int64).max // 2
+    check_sort(acc, [(big, 0, 0), (1, 3, 1)], True, big=True)
+    check_sort(acc, [(big, 0, 0), (1, 3, 1)], False, big=True)
+    check_rejections(acc)
